@@ -430,7 +430,7 @@ class TermDomain(Domain):
             return [(VecV(()), store)]
         if name == "std::vec::Vec::<T, A>::push" and isinstance(a, VecV):
             return [(UNIT, it.write_ref(store, args[0], VecV(a.items + (vals[1],))))]
-        if name == "<std::vec::Vec<T, A> as std::iter::IntoIterator>::into_iter" and isinstance(a, VecV):
+        if name.endswith("IntoIterator>::into_iter") and isinstance(a, VecV):
             return [(IterV(a.items, 0), store)]
         if name == "<std::vec::IntoIter<T, A> as std::iter::Iterator>::next" and isinstance(a, IterV):
             if a.pos < len(a.items):
@@ -442,3 +442,49 @@ class TermDomain(Domain):
         if isinstance(v, (T, Sym)):
             return T("discr", v)
         return None
+
+
+class EffectDomain(TermDomain):
+    """TermDomain in which every unknown callee is an uninterpreted term and designated callees are logged as effects.
+
+    effects: {callee name (exact) or predicate: (label, kind)} with kind in
+      'unit'      returns ()
+      'value'     returns an uninterpreted term
+      'fallible'  forks Ok(()) / Err(sym) and logs ('fail', label) on the Err side
+      'fallible-value'  forks Ok(term) / Err(sym)
+    The log lives in the store under ('log',) as a tuple of (label, arg values...)."""
+
+    def __init__(self, effects, oracle=None, no_inline=()):
+        super().__init__(oracle=oracle, no_inline=no_inline, uninterp=lambda n: True)
+        self.effects = effects
+
+    def on_assert(self, it, body, t, sp, st, frame):
+        m = t["msg"]
+        return not ("Misaligned" in m or "NullPointer" in m or "verflow" in m)
+
+    def effect_of(self, name):
+        e = self.effects.get(name)
+        if e is not None:
+            return e
+        for k, v in self.effects.items():
+            if callable(k) and k(name):
+                return v
+        return None
+
+    def call(self, it, name, args, store, term, frame):
+        e = self.effect_of(name)
+        if e is not None:
+            label, kind = e
+            vals = [it.read_ref(store, a) for a in args]
+            st = self.with_log(store, (label,) + tuple(vals))
+            if kind == "unit":
+                return [(UNIT, st)]
+            if kind == "value":
+                return [(T("call:" + name, *vals), st)]
+            if kind == "fallible":
+                from .core import ok, err
+                return [(ok(UNIT), st), (err(Sym(label + "_error")), self.with_log(st, ("fail", label)))]
+            if kind == "fallible-value":
+                from .core import ok, err
+                return [(ok(T("call:" + name, *vals)), st), (err(Sym(label + "_error")), self.with_log(st, ("fail", label)))]
+        return super().call(it, name, args, store, term, frame)
